@@ -50,9 +50,13 @@ func NewQuery(queryString string) (*Query, error) {
 	}
 
 	if query.stmt.Condition != nil {
+		// Keep the user's condition in parentheses: String() prints binary
+		// expressions without any, so an OR in the user's condition would
+		// otherwise bind weaker than the AND that adds the time range and
+		// part of the condition would escape the time bounds.
 		query.stmt.Condition = &influxql.BinaryExpr{
 			Op:  influxql.AND,
-			LHS: query.stmt.Condition,
+			LHS: &influxql.ParenExpr{Expr: query.stmt.Condition},
 			RHS: &influxql.BinaryExpr{
 				Op:  influxql.AND,
 				LHS: startExpr,
